@@ -71,6 +71,10 @@ pub struct ConfigBuilder {
     /// TCP transport configuration.
     tcp: Option<TcpConfig>,
 
+    /// Scripted transport factory (verification seam).
+    #[cfg(litep2p_verif)]
+    verif_transport: Option<crate::verif::TransportFactory>,
+
     /// QUIC transport config.
     #[cfg(feature = "quic")]
     quic: Option<QuicConfig>,
@@ -140,6 +144,8 @@ impl ConfigBuilder {
     pub fn new() -> Self {
         Self {
             tcp: None,
+            #[cfg(litep2p_verif)]
+            verif_transport: None,
             #[cfg(feature = "quic")]
             quic: None,
             #[cfg(feature = "webrtc")]
@@ -162,6 +168,13 @@ impl ConfigBuilder {
             keep_alive_timeout: KEEP_ALIVE_TIMEOUT,
             use_system_dns_config: false,
         }
+    }
+
+    /// Install a scripted transport, registered in place of TCP (verification seam).
+    #[cfg(litep2p_verif)]
+    pub fn with_verif_transport(mut self, factory: crate::verif::TransportFactory) -> Self {
+        self.verif_transport = Some(factory);
+        self
     }
 
     /// Add TCP transport configuration, enabling the transport.
@@ -300,6 +313,8 @@ impl ConfigBuilder {
         Litep2pConfig {
             keypair,
             tcp: self.tcp.take(),
+            #[cfg(litep2p_verif)]
+            verif_transport: self.verif_transport.take(),
             mdns: self.mdns.take(),
             #[cfg(feature = "quic")]
             quic: self.quic.take(),
@@ -328,6 +343,10 @@ impl ConfigBuilder {
 pub struct Litep2pConfig {
     // TCP transport configuration.
     pub(crate) tcp: Option<TcpConfig>,
+
+    /// Scripted transport factory (verification seam).
+    #[cfg(litep2p_verif)]
+    pub(crate) verif_transport: Option<crate::verif::TransportFactory>,
 
     /// QUIC transport config.
     #[cfg(feature = "quic")]
